@@ -14,7 +14,6 @@ CONSTANTS
 VIEW View
 INIT Init
 NEXT Next
-CONSTRAINT Bound
 INVARIANT Inv_C18_SpecsEqBoundValues
 INVARIANT Inv_C18_NoOrphanSpec
 INVARIANT Inv_C18_LocationsUnique
